@@ -55,6 +55,8 @@ class SessionModel(object):
             return ('value', self.connected)
         if k == 'sleep':
             return ('value', None)
+        if k == 'locks':
+            return ('locks',)
         path = op.get('path')
         if k in ('list', 'stat', 'pull', 'push') and not path:
             return ('exc', ('DevicePathInvalidError',), None)
@@ -213,6 +215,9 @@ def check_session(run, scn, actor=0, model=None, relaxed_from=None):
                 probs.append(P('wrong-result', '%s returned %s, device ground truth is %s%s' % (where, brief(got), brief(want), extra)))
         elif exp[0] == 'statpushed':
             pass
+        elif exp[0] == 'locks':
+            if any(v.values()):
+                probs.append(P('lock-held', '%s: locks still held after the failed operation: %r' % (where, v)))
         elif exp[0] == 'pull':
             got = rec.get('dest_bytes')
             want = exp[1]
